@@ -397,7 +397,7 @@ def run(ctx):
     it = Interp(pkg, param_values={"order": Form.num(7)}, assumptions={"seed": "notnone", "len": "notnone"})
     outs = it.run(fi)
     from ..rules import check_type_guard
-    check_type_guard(ctx, "C04.5", fi, "len", "TypeError", ["int"], ["float", "str"], samples={"int": 5}, base={"order": Form.num(7)}, assumptions={"seed": "notnone"})
+    check_type_guard(ctx, "C04.5", fi, "len", ("TypeError", "ValueError"), ["int"], ["float", "str"], samples={"int": 5}, base={"order": Form.num(7)}, assumptions={"seed": "notnone"})
     from ..rules import Reject, check_range_guard
     check_range_guard(ctx, "C04.5", fi, "len", Reject(lambda x: x <= 0, [0]), "ValueError", "PRBS: len <= 0", accept_sample=[1, 2, 127], base={"order": Form.num(7)},
                       assumptions={"seed": "notnone"}, integer=True)
